@@ -107,28 +107,17 @@ def mootsOf (table : List (List Nat)) (k : Nat) : List Nat := (table[k]?).getD [
 
 /-! ### internal errors known to remain reachable from a script
 
-On the tree with fixes D06, D07, D64 applied.  `(finding, exception class, innermost function)`; `HANG` = the build
-does not return, the function is the resolve loop it was interrupted in.  This table is the region predicate of
-the known findings of C14: a failing input is attributed to a finding only if its (class, function) is listed. -/
+On the tree with fixes D05, D06, D07, D07b, D08, D64, D65, D66, D67 (acting.py part), D69 applied.  `(finding, exception class,
+innermost function)`.  This table is the region predicate of the known findings of C14: a failing input is attributed
+to a finding only if its (class, function) is listed. -/
 def knownCrashSites : List (String × String × String) := [
-  -- D5: a moot framer that clones itself, directly or through other moots: the clone worklist never empties
-  ("D5", "HANG", "presolvePresolvables"),
-  -- D8: a complex literal where a real number is needed (`max(0.0, 1j)`, `int(1j)`)
-  ("D8", "TypeError", "buildFramer"), ("D8", "TypeError", "buildBid"), ("D8", "TypeError", "buildLogger"),
-  -- D65: `int(float('inf'))` / `int(float('nan'))` in `repeat` and `logger … keep`
-  ("D65", "OverflowError", "buildRepeat"), ("D65", "ValueError", "buildRepeat"),
-  ("D65", "OverflowError", "buildLogger"), ("D65", "ValueError", "buildLogger"),
-  -- D66: `server … for <field> in <share>` with a field the share does not have; `rx`/`tx` with a bad host:port
-  ("D66", "KeyError", "__getitem__"), ("D66", "ValueError", "buildServer"),
-  -- D67: script conflicts that ioflo reports with a bare ValueError instead of ParseError/ResolveError
-  --      (share path that runs through an existing share or names an existing node, unequal field lists, bad ioinit)
-  ("D67", "ValueError", "add"), ("D67", "ValueError", "addNode"), ("D67", "ValueError", "_prepareSrcDstFields"),
-  ("D67", "ValueError", "_prepareDstFields"), ("D67", "ValueError", "_initio"), ("D67", "ValueError", "resolve"),
+  -- D67: `Store.add` / `Store.addNode` report a share path that runs through an existing share, or that names an
+  --      existing node, with a bare ValueError (the Store's own contract, C18); the builder and the resolve code
+  --      call `create` at a dozen places without translating it
+  ("D67", "ValueError", "add"), ("D67", "ValueError", "addNode"),
   -- D68: `Act.resolvePath` indexes the parts of a relative path (`framer`, `frame`, `actor` alone) without checking
-  ("D68", "IndexError", "resolvePath"),
-  -- D69: a name registered twice (two `house` lines of one name, a clone whose name exists) is reported with
-  --      ParameterError / CloneError, which `Builder.build` neither catches nor documents
-  ("D69", "ParameterError", "__init__"), ("D69", "CloneError", "clone")]
+  --      (fixes/D68-resolvepath-incomplete-relative.patch, waiting for the C13 model that reproduces the IndexError)
+  ("D68", "IndexError", "resolvePath")]
 
 def crashFindings (cls fn : String) : List String :=
   (knownCrashSites.filter (fun e => e.2.1 == cls && e.2.2 == fn)).map (·.1)
